@@ -85,12 +85,27 @@ _THRESHOLDED_RETRIEVAL_METRICS = (
 )
 
 
+def _at_k(values, k_list):
+  """Gathers values[i, k - 1] for every row i and every k of that row.
+
+  Args:
+    values: Examples x MaxK array.
+    k_list: 1 x K array (the same Ks for every example) or Examples x 1 array
+      (one K per example).
+
+  Returns:
+    Examples x K array.
+  """
+  ks = np.broadcast_to(k_list, (values.shape[0], k_list.shape[1]))
+  return np.take_along_axis(values, ks - 1, axis=1)
+
+
 def _accuracy(tp_at_topks, k_list):
-  return (tp_at_topks[:, k_list - 1] > 0).astype(np.int32)
+  return (_at_k(tp_at_topks, k_list) > 0).astype(np.int32)
 
 
 def _precision(tp_at_topks, k_list, y_pred_count):
-  return tp_at_topks[:, k_list - 1] / np.minimum(
+  return _at_k(tp_at_topks, k_list) / np.minimum(
       k_list, y_pred_count[:, np.newaxis]
   )
 
@@ -101,7 +116,7 @@ def _ppv(tp_at_topks, k_list, y_pred_count):
 
 
 def _recall(tp_at_topks, k_list, y_true_len):
-  return tp_at_topks[:, k_list - 1] / y_true_len[:, np.newaxis]
+  return _at_k(tp_at_topks, k_list) / y_true_len[:, np.newaxis]
 
 
 def _sensitivity(tp_at_topks, k_list, y_true_len):
@@ -115,16 +130,16 @@ def _tpr(tp_at_topks, k_list, y_true_len):
 
 
 def _positive_predictive_value(tp_at_topks, k_list, y_pred_count):
-  return tp_at_topks[:, k_list - 1] / np.minimum(
+  return _at_k(tp_at_topks, k_list) / np.minimum(
       k_list, y_pred_count[:, np.newaxis]
   )
 
 
 def _intersection_over_union(tp_at_topks, k_list, y_true_len, y_pred_count):
-  return tp_at_topks[:, k_list - 1] / (
+  return _at_k(tp_at_topks, k_list) / (
       np.minimum(k_list, y_pred_count[:, np.newaxis])
       + y_true_len[:, np.newaxis]
-      - tp_at_topks[:, k_list - 1]
+      - _at_k(tp_at_topks, k_list)
   )
 
 
@@ -141,8 +156,8 @@ def _false_discovery_rate(tp_at_topks, k_list, y_pred_count):
 
 
 def _threat_score(tp_at_topks, k_list, y_true_len):
-  cumsum_fn = y_true_len[:, np.newaxis] - tp_at_topks[:, k_list - 1]
-  return tp_at_topks[:, k_list - 1] / (cumsum_fn + k_list)
+  cumsum_fn = y_true_len[:, np.newaxis] - _at_k(tp_at_topks, k_list)
+  return _at_k(tp_at_topks, k_list) / (cumsum_fn + k_list)
 
 
 def _fowlkes_mallows_index(tp_at_topks, k_list, y_true_len, y_pred_count):
@@ -158,7 +173,7 @@ def _mean_average_precision(tp, tp_at_topks, ks, k_list, y_true_len):
   relevance = tp > 0
   size_true = np.minimum(ks, y_true_len[:, np.newaxis])
   result = np.cumsum(precision_all_k * relevance, axis=1) / size_true
-  result = result[:, k_list - 1]
+  result = _at_k(result, k_list)
   return result
 
 
@@ -167,7 +182,7 @@ def _mean_reciprocal_rank(tp_at_topks, k_list):
   ranks = np.argmax(tp_at_topks > 0, axis=1) + 1
   # Assign infinity to the false positives as their ranks.
   ranks = np.where(tp_at_topks > 0, ranks[:, np.newaxis], np.inf)
-  result = (1.0 / ranks)[:, k_list - 1]
+  result = _at_k(1.0 / ranks, k_list)
   return result
 
 
@@ -178,7 +193,7 @@ def _dcg_score(tp, k_range, k_list):
   discounted_cumulative_gain = np.cumsum(
       np.where(tp > 0, discounted_gain, 0.0), axis=1
   )
-  return discounted_cumulative_gain[:, k_list - 1]
+  return _at_k(discounted_cumulative_gain, k_list)
 
 
 def _ndcg_score(tp, k_range, k_list, y_true_count):
@@ -193,8 +208,8 @@ def _ndcg_score(tp, k_range, k_list, y_true_count):
   )
   ideal_discounted_cumulative_gain = np.cumsum(ideal_discounted_gain, axis=1)
   result = (
-      discounted_cumulative_gain[:, k_list - 1]
-      / ideal_discounted_cumulative_gain[:, k_list - 1]
+      _at_k(discounted_cumulative_gain, k_list)
+      / _at_k(ideal_discounted_cumulative_gain, k_list)
   )
   return result
 
@@ -477,18 +492,25 @@ class TopKRetrieval(base.MergeableMetric, base.HasAsAggFn):
       # One class identifier per example: a ranking with a single output.
       y_true = [[label] for label in y_true]
       y_pred = [[label] for label in y_pred]
-    k_list = list(sorted(self.k_list)) if self.k_list else [float('inf')]
-    y_pred_count = np.asarray([len(row) for row in y_pred])
-    y_true_count = np.asarray([len(row) for row in y_true])
-    max_pred_count = max(y_pred_count)
-    max_pred_count = min(max_pred_count, max(k_list))
+    y_pred_count = np.asarray([len(row) for row in y_pred], dtype=int)
+    y_true_count = np.asarray([len(row) for row in y_true], dtype=int)
+    if self.k_list:
+      # The same Ks for every example, whatever else is in the batch: 1 x K.
+      k_list = np.asarray(sorted(self.k_list), dtype=int)[np.newaxis, :]
+      if self._input_type == InputType.MULTICLASS:
+        # There is only one output: every top-K is the top-1.
+        k_list = np.minimum(k_list, 1)
+    else:
+      # All the outputs of each example: Examples x 1.
+      k_list = np.maximum(y_pred_count, 1)[:, np.newaxis]
+    max_pred_count = int(k_list.max(initial=1))
     tp = []
     for y_pred_row, y_true_row in zip(y_pred, y_true):
       tp.append([
           int(y_pred_row[i] in y_true_row) if i < len(y_pred_row) else 0
           for i in range(max_pred_count)
       ])
-    tp = np.asarray(tp)
+    tp = np.asarray(tp, dtype=int).reshape(len(tp), max_pred_count)
     # True positives at TopK is of a dimension of Examples x K as the following:
     # The first dimension is always batch dimension (# examples), the second
     # dimension can be either 0D (single-output) or 1D (multioutput) array.
@@ -499,11 +521,6 @@ class TopKRetrieval(base.MergeableMetric, base.HasAsAggFn):
     # topk:     [top1, top2, top3]
     # tp_topks: [1,     1,      2]
     tp_at_topks = np.cumsum(tp, axis=1)
-    # Truncates the k_list with maximum length of the predictions.
-    k_list = np.asarray(
-        [k for k in k_list if k < max_pred_count] + [max_pred_count]
-    )
-
     # A consecutive K list that is useful to calculate average-over-Ks metrics
     # such as mean average precision.
     k_range = np.arange(max_pred_count) + 1
@@ -616,11 +633,6 @@ class TopKRetrieval(base.MergeableMetric, base.HasAsAggFn):
 
   def result(self):
     result = [self._state[metric].result() for metric in self._metrics]
-    # Extends the remaining Ks from the last value.
-    if self.k_list and result and len(self.k_list) > len(result[0]):
-      for i, metric_result in enumerate(result):
-        extra_ks = len(self.k_list) - len(metric_result)
-        result[i] = list(metric_result) + [metric_result[-1]] * extra_ks
     if isinstance(self.metrics, str):
       return result[0]
     return dict(zip(self._metrics, result))
